@@ -1,5 +1,5 @@
 """C17 - the transcript hash binds every field and is order-independent when symmetric (DESIGN 4.17)."""
-from ..terms import Const, Sym, App, FuncV, mk_app, is_app, show
+from ..terms import Const, Sym, App, FuncV, mk_app, is_app, show, resolve_order, is_order_cond
 from .. import session
 from ..session import H
 
@@ -33,11 +33,18 @@ def check(ctx, world):
         a = {n: bsym(n) for n in names}
         outs = ev.run(f, [a[n] for n in names], [], world.static.fork())
         rets = session.rets(outs)
-        ok = len(outs) == 1 and len(rets) == 1 and not rets[0].state.pc[len(world.static.pc):]
-        ctx.ob("F-total", fname, ok, "one unconditional path" if ok else
-               "%d paths (%s): the transcript depends on a condition of the inputs" % (len(outs), [o.kind + ":" + str(o.exc) for o in outs]), site)
-        w = want(a)
+        base = len(world.static.pc)
+        # a hand-written sort ("if m2 < m1: swap") forks on the order of the two messages: such
+        # conditions are allowed (a finite set of orderings, each path compared with the
+        # specification resolved under its own ordering); any other condition is not
+        msgs = [a[n] for n in names if n in ("m1", "m2")]
+        extra = [show(t, maxdepth=4) for o in outs for (t, p, _) in o.state.pc[base:] if not is_order_cond(t, msgs)]
+        ok = len(rets) == len(outs) and len(rets) >= 1 and not extra and (len(outs) == 1 or bool(msgs))
+        ctx.ob("F-total", fname, ok, ("one unconditional path" if len(outs) == 1 else "%d paths, split only on the order of the two messages" % len(outs)) if ok else
+               "%d paths (%s): the transcript depends on a condition of the inputs %s" % (len(outs), [o.kind + ":" + str(o.exc) for o in outs], extra[:3]), site)
+        w0 = want(a)
         for o in rets:
+            w = resolve_order(w0, [(t, p) for (t, p, _) in o.state.pc[base:]])
             ok = o.value == w
             ctx.ob("F-term", fname, ok, "normal form equals the specification: " + show(w, maxdepth=6) if ok else
                    "normal form %s differs from the specification %s" % (show(o.value, maxdepth=6), show(w, maxdepth=6)), site,
@@ -56,11 +63,13 @@ def check(ctx, world):
                     v = o.value
                     ok = False
                     why = "key is not H(cat(...)): " + show(v, maxdepth=4)
+                    pconds = [(session.canon_reencode(t), p) for (t, p, _) in o.state.pc]
                     if is_app(v, "H") and is_app(v.args[0], "cat"):
                         parts = [session.canon_reencode(t) for t in v.args[0].args[:-1]] + [v.args[0].args[-1]]
                         if cname == "SPAKE2_Symmetric":
                             ids = cm.syms.get("idSymmetric")
-                            exp = (H(pw), H(ids), mk_app("min", (own, peer)), mk_app("max", (own, peer)))
+                            exp = (H(pw), H(ids), resolve_order(mk_app("min", (own, peer)), pconds),
+                                   resolve_order(mk_app("max", (own, peer)), pconds))
                         else:
                             x, y = (own, peer) if cname == "SPAKE2_A" else (peer, own)
                             exp = (H(pw), H(cm.syms["idA"]), H(cm.syms["idB"]), x, y)
